@@ -1,6 +1,7 @@
 SPECIFICATION GenSpecC
-CONSTANTS Names <- NamesQ Depth = 2 Vals <- ValsQ Sep = 46 Design = "items" Base <- NoBase MaxSlots = 2
+CONSTANTS Names <- NamesT Depth = 2 Vals <- ValsT Sep = 46 Design = "list" Base <- NoBase MaxSlots = 3
   Strs <- NoStrs Seps <- NoStrs Asgs <- NoStrs Elems <- NoStrs
 CONSTRAINT Bound
 VIEW ViewC
+ACTION_CONSTRAINT Emit
 CHECK_DEADLOCK FALSE
